@@ -28,7 +28,8 @@ CONSTANTS Schema,     \* sequence of [n, k, m]: the data columns
           SnapFails,  \* BOOLEAN: the snapshot's destination may fail at any point (the snapshot is then retried)
           Rst,        \* the actor restoring that snapshot into S at the end
           Rep,        \* the actor replaying on R
-          ReplayAtEnd \* BOOLEAN: replay only once every writer is done (replays commute with the primary's steps)
+          ReplayAtEnd,\* BOOLEAN: replay only once every writer is done (replays commute with the primary's steps)
+          Late        \* schema changes between transactions: [on, idx, sort, trig, drop] (LateNone: the schema is fixed)
 
 ColNames == {Schema[i].n : i \in DOMAIN Schema}
 DescOf(n) == LET i == CHOOSE i \in DOMAIN Schema : Schema[i].n = n IN [k |-> Schema[i].k, m |-> Schema[i].m]
@@ -149,8 +150,22 @@ RestoreStep ==
      \/ txn[Rst].pc = "latched" /\ Unlatch(Rst)
      \/ txn[Rst].pc = "restoring" /\ ~RestoreCanLoad(Rst) /\ RestoreEnd(Rst, FALSE)
 
+\* schema changes on P between transactions (the code takes no latch for them: beside running transactions they
+\* race, which is C18's subject): bitmap indexes, sorted indexes and triggers created late (back-filled from the
+\* data) and dropped, data columns dropped (what was computed from them stays, detached) and created again, empty
+SchemaStep ==
+  /\ Late.on
+  /\ \A t \in Actors : txn[t].pc \in {"idle", "done"}
+  /\ \/ \E d \in Late.idx : CreateIndex("P", d.n, d.col, d.p)
+     \/ \E n \in DOMAIN st["P"].ix : DropIndex("P", n)
+     \/ \E d \in Late.sort : CreateSort("P", d.n, d.col)
+     \/ \E d \in Late.trig : CreateTrigger("P", d.n, d.col)
+     \/ \E n \in DOMAIN st["P"].tg : DropTrigger("P", n)
+     \/ Late.drop /\ \E n \in DOMAIN st["P"].reg : DropColumn("P", n)
+     \/ \E n \in ColNames \ DOMAIN st["P"].reg : CreateColumn("P", n, DescOf(n))
+
 MCNext ==
-  \/ SnapStep \/ RestoreStep
+  \/ SnapStep \/ RestoreStep \/ SchemaStep
   \/ \E t \in Writers : WriterStep(t) \/ CommitStep(t)
   \/ (Replica /\ (ReplayStep \/ CommitStep(Rep)))
 
@@ -204,6 +219,10 @@ SortS == { [n |-> "byS", col |-> "s"] }
 TrigA == { [n |-> "ta", col |-> "a"] }
 TrigAS == { [n |-> "ta", col |-> "a"], [n |-> "ts", col |-> "s"] }
 NoDefs == {}
+LateNone == [on |-> FALSE, idx |-> {}, sort |-> {}, trig |-> {}, drop |-> FALSE]
+LateIdx  == [on |-> TRUE, idx |-> IdxIntStr, sort |-> SortS, trig |-> TrigA, drop |-> FALSE]
+LateQuick == [on |-> TRUE, idx |-> IdxInt, sort |-> SortS, trig |-> {}, drop |-> FALSE]
+LateCols == [on |-> TRUE, idx |-> IdxInt, sort |-> SortS, trig |-> TrigA, drop |-> TRUE]
 AllLayouts == SUBSET Offsets
 Layout02 == {{0, 2}}
 LayoutSome == {{0, 2}, {0, 1, 2}, {1}}
